@@ -449,7 +449,22 @@ func (gen *generator) irFuncDecl(new *ir.Func, old *ast.FuncDecl) error {
 	}
 	new.Metadata = md
 	// Function header.
-	return gen.irFuncHeader(new, old.Header())
+	if err := gen.irFuncHeader(new, old.Header()); err != nil {
+		return errors.WithStack(err)
+	}
+	// Parameter names of a declaration are not indexed (there is no body to
+	// resolve), but must be unique all the same.
+	seen := make(map[ir.LocalIdent]bool)
+	for _, param := range new.Params {
+		if param.IsUnnamed() {
+			continue
+		}
+		if seen[param.LocalIdent] {
+			return errors.Errorf("local identifier %q already present in declaration of %s", param.Ident(), new.Ident())
+		}
+		seen[param.LocalIdent] = true
+	}
+	return nil
 }
 
 // --- [ Function definitions ] ------------------------------------------------
